@@ -651,7 +651,7 @@ func (x *Exec) invoke(st *State, cc *ssa.CallCommon, recv Val, args []Val, pos t
 			arr := sx("select", c.region(st, r8), sRef(p.S))
 			opos := c.region(st, "$opos")
 			// (guarded by the path: two sibling paths may write different bytes at the same position)
-			c.assumeOnPath(fmt.Sprintf("(forall ((i Int)) (! (=> (and (<= 0 i) (< i %s)) (= (gotape (+ %s i)) (select %s (+ %s i)))) :pattern ((gotape (+ %s i)))))", n, opos, arr, sOff(p.S), opos))
+			c.assumeOnPath(fmt.Sprintf("(forall ((j Int)) (! (=> (and (<= %s j) (< j (+ %s %s))) (= (gotape j) (select %s (+ %s (- j %s))))) :pattern ((gotape j))))", opos, opos, n, arr, sOff(p.S), opos))
 			st.cells["$opos"] = Val{S: c.def("opos", "Int", sx("+", opos, n))}
 			c.assume(sx("<=", sx("+", opos, n), tposMax))
 			c.note("ghost output tape: otape(k) is the k-th byte accepted by the underlying writers, opos() the number accepted so far (fewer than 2^62)")
